@@ -36,6 +36,24 @@ func scenStream(specs []streamSpec, unary int, cause string, at int, subBuf int,
 	neverRelease := make(chan struct{})
 	cancels := make([]context.CancelFunc, len(specs))
 	holdFirst := cause == "normal" && len(specs) >= 3 && specs[0].N <= 2
+	// with holdFirst the younger producers pause half way until the forwarder has removed the oldest stream, so that
+	// values and closes of the survivors are forwarded after the removal, whatever the scheduling
+	phase2 := make(chan struct{})
+	if holdFirst {
+		first := int(e.nextTok) + 1
+		halves := map[int]int{}
+		for i, sp := range specs {
+			halves[first+i] = sp.N / 2
+		}
+		e.prodGate = func(token, i int) {
+			if token != first && halves[token] > 0 && i == halves[token] {
+				select {
+				case <-phase2:
+				case <-time.After(3 * time.Second):
+				}
+			}
+		}
+	}
 	for i, sp := range specs {
 		e.nextTok++
 		tok := int(e.nextTok)
@@ -89,6 +107,8 @@ func scenStream(specs []streamSpec, unary int, cause string, at int, subBuf int,
 	if holdFirst {
 		time.Sleep(3 * time.Millisecond)
 		e.release(obs[0].Token)
+		e.waitEv(2*time.Second, func(ev tev) bool { return ev.Point == "och.close" })
+		close(phase2)
 	}
 	if cause != "normal" {
 		select {
